@@ -261,8 +261,8 @@ end UserGrid
 
 /-- On IEEE doubles the same round trip is *not* the identity: with `2N = 10000` the user's
 timepoint `3.0` comes back as `2.9999999999999996` (bit patterns; evaluated by the kernel).  This is why
-the implementation is compared with the user's grid up to rounding (finding
-`timegrid-roundtrip-exceeds-4ulp` for multi-epoch histories), while `user_grid_roundtrip` is exact. -/
+the implementation returns the user's grid only up to rounding (known finding
+`explicit-timegrid-returned-up-to-rounding`), while `user_grid_roundtrip` is exact. -/
 theorem float_roundtrip_moves_a_point :
     (toNatConst (Float.ofBits 0x40c3880000000000)
       (toCoalConst (Float.ofBits 0x40c3880000000000) (Float.ofBits 0x4008000000000000))).toBits
